@@ -4,15 +4,18 @@
 // (normal, RemoveSNIExtension, IP-literal ServerName, spec without an SNI extension). After every successful
 // handshake the two ConnectionStates are compared field by field and ExportKeyingMaterial is called on both
 // ends for 5 random (label, context, length) triples. Go-side oracle keys: state/<field>/<parrot>, ekm/<parrot>.
-// Coq cases: CState (client_run / server_state of Model/Negotiate.v + Model/Transcript.v on the flight parsed from
+// Coq cases: CState (Complete.client_run10 = Negotiate's decision with the key selection of the tree at hand, and
+// server_state of Model/Transcript.v, on the flight parsed from
 // the server's plaintext messages), CName (server-name model on uconn.Extensions).
 package main
 
 import (
 	"bytes"
+	"crypto/ecdh"
 	"fmt"
 	"io"
 	"net"
+	"reflect"
 	"strings"
 	"sync"
 	"time"
@@ -69,6 +72,7 @@ type result struct {
 	server    side
 	view      tls.VerifClientView
 	keys      *tls.KeySharePrivateKeys
+	shape     string
 	ccExt     bool
 	sniItems  string
 	cfgName   string
@@ -80,6 +84,28 @@ type result struct {
 }
 
 const ping = "ping-from-client"
+
+// treeFixed: the tree carries the C18 key-share repair (KeySharePrivateKeys.ExtraEcdhe + ecdheKeyFor); read by reflection
+// so the runner builds on either tree and hands the model the matching key-selection rule.
+func treeFixed() bool {
+	_, ok := reflect.TypeOf(tls.KeySharePrivateKeys{}).FieldByName("ExtraEcdhe")
+	return ok
+}
+
+// shapeTerm: curves of the private keys ApplyPreset retained (KeyShare.mkShape ecdhe extra mlkem mlkem_ecdhe).
+func shapeTerm(ks *tls.KeySharePrivateKeys) string {
+	if ks == nil {
+		return "(KeyShare.mkShape 0 [] false 0)"
+	}
+	var extra []uint16
+	if f := reflect.ValueOf(ks).Elem().FieldByName("ExtraEcdhe"); f.IsValid() {
+		keys, _ := f.Interface().([]*ecdh.PrivateKey)
+		for _, k := range keys {
+			extra = append(extra, hs.CurveOfKey(k))
+		}
+	}
+	return fmt.Sprintf("(KeyShare.mkShape %d %s %s %d)", hs.CurveOfKey(ks.Ecdhe), vh.U16s(extra), vh.Bool(ks.Mlkem != nil), hs.CurveOfKey(ks.MlkemEcdhe))
+}
 
 func exportAll(cs *tls.ConnectionState, ts []triple) []ekmOut {
 	out := make([]ekmOut, len(ts))
@@ -185,6 +211,7 @@ func connect(r row, ccfg, scfg *tls.Config, ts []triple) *result {
 	}
 	res.view = tls.VerifClientViewOf(uc)
 	res.keys = uc.HandshakeState.State13.KeyShareKeys
+	res.shape = shapeTerm(res.keys) // before the handshake: a HelloRetryRequest replaces the keys
 	res.cfgName = extcoq.HostnameInSNI(ccfg.ServerName)
 	var items []string
 	for _, e := range uc.Extensions {
@@ -270,6 +297,7 @@ func triples(c *vh.Ctx, tag string) []triple {
 
 func run(c *vh.Ctx) {
 	p := hs.SharedPKI()
+	c.Extra["tree_has_ExtraEcdhe"] = treeFixed()
 	var rows []row
 	for pi, pr := range hs.Parrots() {
 		rows = append(rows,
@@ -431,6 +459,6 @@ func judge(c *vh.Ctx, r row, ts []triple, res *result) {
 	obs := func(s tls.ConnectionState, curve uint16) string {
 		return fmt.Sprintf("(mkObsState %d %d %d %s %s)", s.Version, s.CipherSuite, curve, vh.Str(s.NegotiatedProtocol), vh.Bool(s.DidResume))
 	}
-	c.Case("state", fmt.Sprintf("(CState %s %s %s %s)", view, fl, obs(cs, res.client.curve), obs(ss, res.server.curve)), key, true,
+	c.Case("state", fmt.Sprintf("(CState %s %s %s %s %s %s)", vh.Bool(treeFixed()), view, res.shape, fl, obs(cs, res.client.curve), obs(ss, res.server.curve)), key, true,
 		map[string]any{"in": in, "version": cs.Version, "suite": cs.CipherSuite, "curve": res.client.curve, "alpn": cs.NegotiatedProtocol, "resumed": cs.DidResume})
 }
